@@ -316,6 +316,11 @@ def gen(tier: str, seed: int) -> list[Case]:
         lines.append(f"class Num{k}:\n" + "".join(f"    a{j} = {v}\n" for j, v in enumerate(chunk)) + f"\n    def __init__(self, {', '.join(f'q{j}={v}' for j, v in enumerate(chunk))}) -> None:\n" + "".join(f"        self.i{j} = {v}\n" for j, v in enumerate(chunk)) + "\n\n")
     lits = ["0", "-1", "7", "9223372036854775808", "-170141183460469231731687303715884105728", "0xff", "1_000", "True", "False", "None"]
     lines.append("def lits(" + ", ".join(f"l{j}: Literal[{v}] = {v}" for j, v in enumerate(lits)) + f", all_: Literal[{', '.join(lits)}] = 0) -> Literal[{', '.join(lits[:4])}]: ...\n")
+    # defaults and attribute values that are collections (empty and not) or other expressions that are no literal
+    colls = ["()", "[]", "{}", "(1,)", "(1, 'a')", "[1, 2]", "{1: 'a'}", "{1, 2}", "set()", "frozenset()", "dict()", "list()", "tuple()", "((), [])", "[[]]", "{'k': ()}", "range(3)", "b''", "b'x'", "...", "-(1)", "1 if True else 2"]
+    lines.append("\n\ndef colls(" + ", ".join(f"c{j}={v}" for j, v in enumerate(colls)) + ") -> None: ...\n\n\n")
+    lines.append("def colls_typed(t: tuple[int, ...] = (), l: list[int] = [], d: dict[str, int] = {}, s: set[int] = set(), o: object = (), *args: int, **kwargs: int) -> None: ...\n\n\n")
+    lines.append("class Colls:\n" + "".join(f"    a{j} = {v}\n" for j, v in enumerate(colls)) + "    t: tuple[int, ...] = ()\n\n    def __init__(self, t: tuple[int, ...] = (), l=[], d={}) -> None:\n        self.t = t\n        self.e = ()\n        self.f: list[int] = []\n\n    def m(self, t=(), /, *, k=()) -> None: ...\n")
     for nc in (False, True):
         cases.append(Case(cid=f"c02-numbers-{int(nc)}", files={"src/pk/__init__.py": "", "src/pk/m_num.py": "".join(lines)}, opts=["-nc"] if nc else [], meta={"part": "numbers", "feats": {"number-defaults": len(vals)}}, reach=REACH))
     # (vi) whole packages, each generated TWICE into the same output directory (the files of the second run are parsed):
